@@ -134,6 +134,9 @@ func (obj *SparseInt32Vector) SET(x *SparseInt32Vector) {
   }
 }
 func (obj *SparseInt32Vector) SLICE(i, j int) *SparseInt32Vector {
+  if i < 0 || j < i || j > obj.n {
+    panic("index out of bounds")
+  }
   r := nilSparseInt32Vector(j-i)
   for it := obj.indexIteratorFrom(i); it.Ok(); it.Next() {
     if it.Get() >= j {
